@@ -46,6 +46,9 @@ func checkC19(c *Ctx) {
 		return
 	}
 	c.curCfg = "wasm"
+	c.Rule("C19-R13", "every key the page reports becomes an event, except the four modifier keys reported on their own (no length or table test stands between a printable character and its KeyRune event)")
+	c.Expect("C19-R13", 1)
+	checkWebKeyAlwaysPosts(c, p, "C19-R13")
 	// R1
 	tpkg := p.pkg("")
 	if tpkg == nil {
